@@ -746,6 +746,9 @@ class Interp:
                 self.p.reads.append((o.cls.__name__, name))
             if name in o.attrs:
                 return o.attrs[name]
+            mm = getattr(o.cls, "__pyvc_methods__", None)
+            if mm and name in mm:
+                return ModelMethod(o, mm[name], name)
             return self.class_attr(o, o.cls, name)
         if isinstance(o, (SV, MList, MDict)):
             return self.models.sym_attr(self, o, name)
@@ -848,6 +851,8 @@ class Interp:
             return self.call(fn.fn, [fn.self_val] + list(args), kwargs, site)
         if isinstance(fn, NativeBound):
             return self.models.call_native(self, fn.raw, [fn.inst] + list(args), kwargs)
+        if isinstance(fn, ModelMethod):
+            return fn.f(self, fn.obj, list(args), dict(kwargs))
         if isinstance(fn, SymMethod):
             return self.models.call_sym_method(self, fn.recv, fn.name, args, kwargs)
         if isinstance(fn, Closure):
@@ -1113,6 +1118,13 @@ class Interp:
             out[k] = self.eval(e.value, cenv, module)
         self._comp(e, env, module, emit)
         return out
+
+
+class ModelMethod:
+    """method of a spec-level stand-in object (assumed dependency contract written in /verif/contracts)"""
+
+    def __init__(self, obj, f, name):
+        self.obj, self.f, self.name = obj, f, name
 
 
 class NativeBound:
